@@ -16,6 +16,10 @@ RULE = (
     "Residue.rotate_tetrahedral on a drawn bond.  Non-trivial = non-planar point set or "
     "angle not a multiple of 90 or offset > 100 A (fit/chi/dihedral); a torsion change of "
     "> 1 deg on a residue with >= 1 moving atom (torsion/tetra).  distinct = case hash."
+    ' fit-special: EXHAUSTIVE symmetric axis-aligned reference sets x exact special rotations '
+    '(identity, half/quarter turns, 120 deg) x translations.  torsion: explicit oracle (atoms '
+    'beyond the axis bond = Rodrigues rotation by the measured angle, all others unmoved), also '
+    'small steps relative to the present angle, up to 900 A from the origin.'
 )
 ASSUMPTIONS = [
     "oracle: numpy rotation matrices from unit quaternions, Rodrigues formula, atan2 dihedral",
